@@ -277,6 +277,61 @@ def _bo(dt):
     return 'big'
 
 
+# ---------------------------------------------------------------- element type of sequences / iterators
+KINDS = {   # width 1 / width 2 scalars of one numeric kind
+    'int': (lambda i: np.int8(i % 100 + 1), lambda i: np.int64(2 ** 40 + i)),
+    'uint': (lambda i: np.uint8(i % 200 + 1), lambda i: np.uint32(70000 + i)),
+    'float': (lambda i: np.float32(i + 0.5), lambda i: np.float64(i + 0.1)),
+    'complex': (lambda i: np.complex64(i + 0.5j), lambda i: np.complex128(i + 0.1j)),
+    'pyfloat': (lambda i: np.float32(i + 0.5), lambda i: float(i) + 0.1),
+}
+
+
+def typing_cases(run, rows, seed):
+    """TypeRows of spec/Create.tla: which source rows decide the stored element type"""
+    import darr
+    root = tempfile.mkdtemp(prefix='darrc01t_')
+    kinds = sorted(KINDS)
+    try:
+        for ri, row in enumerate(rows):
+            kind = kinds[(ri + seed) % len(kinds)]
+            nested = (ri // len(kinds)) % 3 == 1
+            mk = KINDS[kind]
+            vals = [mk[w - 1](i) for i, w in enumerate(row['ws'])]
+            x = [[v, v] for v in vals] if nested else list(vals)
+            c = None if row['c'] == NONE else row['c']
+            form = row['form']
+            if form == 'tuple':
+                x = tuple(x)
+            p = os.path.join(root, 'a%d' % ri)
+            decide = [x[k] for k in row['decide']]
+            want_dtype = np.asarray(decide).dtype           # NumPy promotion over the deciding rows
+            ref = np.asarray(list(x)).astype(want_dtype)
+            if form == 'generator':
+                cl = c or len(x) + 1
+                inp = (list(x)[i:i + cl] for i in range(0, len(x), cl))
+            else:
+                inp = x
+            run.add('typing_cases')
+            try:
+                a = darr.asarray(p, inp, chunklen=c)
+                got = a[:]
+                fresh = darr.Array(p)[:]
+            except Exception as e:
+                run.violation('C01|typing|%s|raises' % form, {'case': row, 'kind': kind, 'error': repr(e)[:200]},
+                              {'kind': 'create-typing', 'case': row})
+                continue
+            ok = (got.dtype == want_dtype and got.shape == ref.shape and got.tobytes() == ref.tobytes()
+                  and fresh.dtype == want_dtype and fresh.tobytes() == ref.tobytes())
+            if not ok:
+                run.violation('C01|typing|%s|%s|element type' % (form, 'chunklen=None' if c is None else 'chunklen<n' if c < len(x) else 'chunklen>=n'),
+                              {'case': row, 'kind': kind, 'nested': nested, 'input': repr(x)[:200], 'expected_dtype': want_dtype.str,
+                               'stored_dtype': got.dtype.str, 'expected': repr(ref.tolist())[:200], 'stored': repr(got.tolist())[:200]},
+                              {'kind': 'create-typing', 'case': row, 'numeric_kind': kind})
+    finally:
+        shutil.rmtree(root, ignore_errors=True)
+
+
 def run(tier, seed):
     run = Run('C01', tier, seed, 'model_checking')
     thorough = tier == 'thorough'
@@ -302,8 +357,16 @@ def run(tier, seed):
             sig = 'C01|%s|%s|%s|%s' % (c['form'], 'zero-length' if b.get('zero_length') else 'nonempty',
                                        'dtypearg' if c.get('dtype_arg') else 'nodtype', what)
             run.violation(sig, b, {'kind': 'create', 'case': b})
-    run.cov['distinct_nontrivial'] = len(rows)
-    run.add('traces_validated_against_impl', len(rows))
+    # element type when no dtype is given: a sequence is converted as a whole, an iterator by its first chunk;
+    # the pinned per-slice algorithm ("firstchunk") must be found chunklen-dependent by TLC
+    NT = 4
+    tr = tlc.table('Create', 'TypeRows(%d)' % NT,
+                   defs='ASSUME TypeInvariance(%d, "whole")\nASSUME ~TypeInvariance(3, "firstchunk")' % NT, name='createtypes')
+    run.cov['tlc_assumes'] += ['TypeInvariance(%d, "whole")' % NT, '~TypeInvariance(3, "firstchunk")']
+    typing_cases(run, tr.rows, seed)
+    run.add('states', len(tr.rows))
+    run.cov['distinct_nontrivial'] = len(rows) + len(tr.rows)
+    run.add('traces_validated_against_impl', len(rows) + len(tr.rows))
     for row in rows[300:303]:
         run.sample(row)
     run.cov['rule'] = ('rows = (input form, n <= 6, chunklen incl. None and > n, supported?) with the stored row order '
